@@ -71,6 +71,7 @@ func runC13(c *Ctx, r *Rec) {
 		return
 	}
 
+	checkReceiverWrites(c, r, "D4-receiver-writes-persist", stk)
 	// ---- D1 constructors
 	cms := c.methodsOf(cls)
 	for _, name := range sortedKeys(cms) {
@@ -90,65 +91,65 @@ func runC13(c *Ctx, r *Rec) {
 		}
 		construct := c.fdName(fd)
 		env := &symEnv{info: info}
-		n := sym("n")
-		env.base = Cube{n.scale(-1)}
 		type capRec struct {
 			cap  Val
+			size *Lin
 			cube Cube
-			n0   bool // the storage is a fresh empty list
 			pos  token.Pos
 		}
 		var caps []capRec
-		env.resolve = func(e ast.Expr) (Val, bool) {
-			switch x := e.(type) {
-			case *ast.CallExpr:
-				if isBuiltinCall(info, x, "len") {
-					return Val{Lin: n}, true
+		var tracker *sizeTracker
+		tracker = newSizeTracker(info, fd, env, func(e ast.Expr) (Val, bool) {
+			x, ok := e.(*ast.UnaryExpr)
+			if !ok || x.Op != token.AND {
+				return Val{}, false
+			}
+			cl, ok := x.X.(*ast.CompositeLit)
+			if !ok {
+				return Val{}, false
+			}
+			for _, l := range lits {
+				if l != cl {
+					continue
 				}
-				if _, mname, _, ok := methodCall(x); ok && mname == "GetSize" && len(x.Args) == 0 {
-					return Val{Lin: n}, true
-				}
-			case *ast.UnaryExpr:
-				if cl, ok := x.X.(*ast.CompositeLit); ok && x.Op == token.AND {
-					for _, l := range lits {
-						if l == cl {
-							rec := capRec{cube: append(Cube{}, env.cur.cube...), pos: cl.Pos()}
-							for _, el := range cl.Elts {
-								kv, ok := el.(*ast.KeyValueExpr)
-								if !ok {
-									continue
-								}
-								id, _ := kv.Key.(*ast.Ident)
-								if id == nil {
-									continue
-								}
-								fv, _ := info.Uses[id].(*types.Var)
-								if fv == nil {
-									continue
-								}
-								switch fv.Origin() {
-								case capF:
-									rec.cap = env.eval(env.cur, kv.Value)
-								case storage:
-									// where does the list come from?
-									sv := ast.Unparen(kv.Value)
-									if sid, ok := sv.(*ast.Ident); ok {
-										if init := initOf(info, fd, sid); init != nil {
-											sv = init
-										}
-									}
-									if _, mname, call, ok := methodCall(sv); ok && mname == "Make" && len(call.Args) == 0 {
-										rec.n0 = true
-									}
-								}
-							}
-							caps = append(caps, rec)
-							return Val{Opaque: "new-stack"}, true
-						}
+				rec := capRec{cube: append(Cube{}, env.cur.cube...), pos: cl.Pos()}
+				for _, el := range cl.Elts {
+					kv, ok := el.(*ast.KeyValueExpr)
+					if !ok {
+						continue
+					}
+					id, _ := kv.Key.(*ast.Ident)
+					if id == nil {
+						continue
+					}
+					fv, _ := info.Uses[id].(*types.Var)
+					if fv == nil {
+						continue
+					}
+					switch fv.Origin() {
+					case capF:
+						rec.cap = env.eval(env.cur, kv.Value)
+					case storage:
+						rec.size = tracker.sizeAt(env.cur, kv.Value)
 					}
 				}
+				caps = append(caps, rec)
+				return Val{Opaque: "new-stack"}, true
 			}
 			return Val{}, false
+		})
+		// unsigned quantities are non-negative
+		if cst := structOf(cls); cst != nil {
+			for i := 0; i < cst.NumFields(); i++ {
+				if b, ok := cst.Field(i).Type().Underlying().(*types.Basic); ok && b.Info()&types.IsUnsigned != 0 {
+					env.base = append(env.base, sym(objKey(cst.Field(i))).scale(-1))
+				}
+			}
+		}
+		for _, p := range paramObjs(info, fd) {
+			if b, ok := p.Type().Underlying().(*types.Basic); ok && b.Info()&types.IsUnsigned != 0 {
+				env.base = append(env.base, sym(p.Name()).scale(-1))
+			}
 		}
 		symRun(env, fd.Body)
 		if len(env.problems) > 0 {
@@ -165,20 +166,16 @@ func runC13(c *Ctx, r *Rec) {
 				bad = "the capacity given to the new stack is not an integer form"
 				continue
 			}
-			cnt := n
-			if cr.n0 {
-				cnt = k(0)
-			}
-			full := append(append(Cube{}, env.base...), cr.cube...)
-			if cr.n0 {
-				// a fresh empty list: only capacity >= 0 is needed, which unsigned guarantees
+			if cr.size == nil {
+				bad = "the number of values in the list the new stack adopts cannot be tracked"
 				continue
 			}
-			if sat, dec := satF(full, lt(cr.cap.Lin, cnt)); sat || !dec {
-				bad = fmt.Sprintf("the new stack adopts n initial values but its capacity is %s, which is smaller than n for some n (on {%s}): the stack is born over capacity and AddValue's equality test never fires", cr.cap.Lin, full)
+			full := append(append(Cube{}, env.base...), cr.cube...)
+			if sat, dec := satF(full, lt(cr.cap.Lin, cr.size)); sat || !dec {
+				bad = fmt.Sprintf("the new stack adopts a list holding %s values but its capacity is %s, which is smaller for some inputs (on {%s}, n = number of caller-supplied values): the stack is born over capacity and AddValue's equality test never fires", cr.size, cr.cap.Lin, full)
 			}
 		}
-		r.check(bad == "", "D1-capacity-at-birth", construct, c.pos(fd.Pos()), fmt.Sprintf("capacity >= number of adopted values on all integers (%d literal evaluations)", len(caps)), bad)
+		r.check(bad == "", "D1-capacity-at-birth", construct, c.pos(fd.Pos()), fmt.Sprintf("capacity >= number of values in the adopted list at the point of construction, on all integers (%d literal evaluations)", len(caps)), bad)
 	}
 	r.floor("D1-capacity-at-birth", 3)
 
